@@ -86,6 +86,25 @@ func quotedValue(r *rand.Rand) string {
 	}
 }
 
+// literalValue draws the value of an unquoted qualifier: mostly a number, also
+// the parenthesised forms of the INSDC vocabulary, and values that hold a line
+// break with the parentheses of the first line balanced or still open.
+func literalValue(r *rand.Rand) string {
+	a, b := 1+r.Intn(40), 50+r.Intn(40)
+	switch r.Intn(8) {
+	case 0:
+		return fmt.Sprintf("(pos:%d..%d,aa:Met)", a, a+2)
+	case 1:
+		return fmt.Sprintf("%d..%d,\n%d..%d", a, a+3, b, b+3)
+	case 2:
+		return fmt.Sprintf("(pos:%d..%d,\naa:Sec)", a, a+2)
+	case 3:
+		return fmt.Sprintf("(%d)%d,\n%d", a, b, a+b)
+	default:
+		return fmt.Sprint(1 + r.Intn(11))
+	}
+}
+
 // RandProps draws qualifiers of all three kinds, grouped by name (as
 // Props.Add does), always starting with a unique /label.
 func RandProps(r *rand.Rand, label string) gts.Props {
@@ -95,7 +114,7 @@ func RandProps(r *rand.Rand, label string) gts.Props {
 	for i := 0; i < n; i++ {
 		switch r.Intn(4) {
 		case 0:
-			p.Add(literalNames[r.Intn(len(literalNames))], fmt.Sprint(1+r.Intn(11)))
+			p.Add(literalNames[r.Intn(len(literalNames))], literalValue(r))
 		case 1:
 			name := toggleNames[r.Intn(len(toggleNames))]
 			if !p.Has(name) {
@@ -214,7 +233,7 @@ func RandGenBank(r *rand.Rand, o GBOpt, labelPrefix string) seqio.GenBank {
 		f.Comments = append(f.Comments, cm)
 	}
 	for i, n := 0, r.Intn(3); i < n; i++ {
-		f.Extra = append(f.Extra, seqio.GenBankExtraField([]string{"PRIMARY", "PROJECT", "SEGMENT", "BASE"}[r.Intn(4)], words(r, 1+r.Intn(4))))
+		f.Extra = append(f.Extra, seqio.GenBankExtraField([]string{"PRIMARY", "PROJECT", "SEGMENT", "BASE"}[r.Intn(4)], words(r, r.Intn(5))))
 	}
 	var tab []gts.Feature
 	if L > 0 && o.MaxFeatures > 0 {
